@@ -270,11 +270,10 @@ impl Ctx {
         if !self.strict {
             if let Some(k) = self.findings.lookup(self.id, &sig) {
                 let mut hits = self.known_hits.lock().unwrap();
-                let n = hits.entry(sig.clone()).or_insert(0);
-                if *n == 0 {
-                    println!("KNOWN-FINDING: property={} {} [{}]", self.id, k.what, sig);
+                if !hits.keys().any(|h| h == &k.signature || self.findings.lookup(self.id, h).map(|x| x.signature == k.signature).unwrap_or(false)) {
+                    println!("KNOWN-FINDING: property={} {} [{}]", self.id, k.what, k.signature);
                 }
-                *n += 1;
+                *hits.entry(sig.clone()).or_insert(0) += 1;
                 return;
             }
         }
@@ -307,11 +306,11 @@ impl Ctx {
         let sig = format!("{}:{}", self.id, sig_slug);
         if let Some(k) = self.findings.lookup(self.id, &sig) {
             let mut hits = self.known_hits.lock().unwrap();
-            let n = hits.entry(sig.clone()).or_insert(0);
-            if *n == 0 {
-                println!("KNOWN-FINDING: property={} {} [{}]", self.id, k.what, sig);
+            // one line per listed finding (a listed signature may cover several concrete ones)
+            if !hits.keys().any(|h| h == &k.signature || self.findings.lookup(self.id, h).map(|x| x.signature == k.signature).unwrap_or(false)) {
+                println!("KNOWN-FINDING: property={} {} [{}]", self.id, k.what, k.signature);
             }
-            *n += 1;
+            *hits.entry(sig.clone()).or_insert(0) += 1;
             true
         } else {
             false
